@@ -1,33 +1,41 @@
 (* C16 command table (Model/Policy.v extracted).
-   perform  <bits> <uids> <bind> <subs> <op> <user>      -> nokey | incomplete | nousage | attr:is_unlocked | attr:is_public |
-   performp <...same...>  (pre-480b116: oldest binding)     crash:user | crash:nobinding | run:<component>:<warned>
-   performo <...same...>  (pre-812bc0f: PGPUID.selfsig = newest signature of any type by the key)
+   perform  <bits> <uids> <bind> <subs> <op> <user>      -> nokey | incomplete | nouser | nousage | attr:is_unlocked | attr:is_public |
+                                                            crash:user | crash:nobinding | crash:nouserid | run:<component>:<warned>
+   performp (pre-480b116: oldest binding)  performo (pre-812bc0f: selfsig = newest signature of any type by the key)
+   performl (pre-cab6d36: conditions checked on the receiver)  performc (pre-a0cb78f: unknown user= / unbound subkey raise)
+   performi (pre-1d6dbd1: default identity = first user id only)                 -- same arguments
    flags    <bits> <uids> <bind> <subs> <user>           -> per component: flag set (hex) or crash, comma separated
-   forms    <bits>                                       -> is_public is_protected is_unlocked
+   forms    <bits>                                       -> is_public is_protected is_unlocked (of the receiver)
    route    <own> <subs> <encrypters>                    -> own | cannot | sub:<candidates>
-   bits  = present primary public protected unlocked enforce, one digit each
-   uids  = "_" or ';'-separated  ids@sigs ; ids = ','-separated hex tokens ("-" none); sigs = "-" or ','-separated created/flags/qual/cert
-   bind  = sigs ; subs = "_" or ';'-separated sigs ; user = "-" or a hex token ; lists of ids: ','-separated hex or "-" *)
+   bits  = present primary public protected unlocked enforce, one digit each (public / protected / unlocked: the RECEIVER's own state)
+   uids  = "_" or ';'-separated  ids@sigs@text ; ids = ','-separated hex tokens ("-" none); text = 1 user id / 0 user attribute;
+           sigs = "-" or ','-separated created/flags/qual/cert
+   bind  = sigs ; subs = "_" or ';'-separated sigs@ppu (ppu = public protected unlocked of that subkey) ; user = "-" or a hex token ;
+   lists of ids: ','-separated hex or "-" *)
 let split c s = if s = "-" || s = "_" then [] else String.split_on_char c s
 let parse_sig s = match String.split_on_char '/' s with
   | [c; f; q; t] -> { s_created = z_of_hexnum c; s_flags = z_of_hexnum f; s_qual = (q = "1"); s_cert = (t = "1") }
   | _ -> failwith "sig"
 let parse_sigs s = List.map parse_sig (split ',' s)
 let parse_uid s = match String.split_on_char '@' s with
-  | [ids; sigs] -> { u_ids = List.map z_of_hexnum (split ',' ids); u_sigs = parse_sigs sigs }
+  | [ids; sigs; t] -> { u_text = (t = "1"); u_ids = List.map z_of_hexnum (split ',' ids); u_sigs = parse_sigs sigs }
   | _ -> failwith "uid"
+let parse_attr a = { a_public = a.[0] = '1'; a_protected = a.[1] = '1'; a_unl = a.[2] = '1' }
+let parse_sub s = match String.split_on_char '@' s with
+  | [sigs; a] -> { sb_sigs = parse_sigs sigs; sb_attr = parse_attr a }
+  | _ -> failwith "sub"
 let parse_key bits uids bind subs =
   let b i = bits.[i] = '1' in
   { k_present = b 0; k_primary = b 1; k_uids = List.map parse_uid (split ';' uids); k_bind = parse_sigs bind;
-    k_subs = List.map parse_sigs (if subs = "_" then [] else String.split_on_char ';' subs);
-    k_public = b 2; k_protected = b 3; k_unl = b 4; k_enforce = b 5 }
+    k_subs = List.map parse_sub (if subs = "_" then [] else String.split_on_char ';' subs);
+    k_attr = parse_attr (String.sub bits 2 3); k_enforce = b 5 }
 let parse_op = function
   | "sign" -> OSign | "certify" -> OCertify | "revoke" -> ORevoke | "revoker" -> ORevoker | "bind" -> OBind
   | "encrypt" -> OEncrypt | "decrypt" -> ODecrypt | _ -> failwith "op"
 let parse_user u = if u = "-" then None else Some (z_of_hexnum u)
-let crash_s = function CrashUser -> "crash:user" | CrashNoBinding -> "crash:nobinding"
+let crash_s = function CrashUser -> "crash:user" | CrashNoBinding -> "crash:nobinding" | CrashNoUserId -> "crash:nouserid"
 let show = function
-  | NoKey -> "nokey" | Incomplete -> "incomplete" | NoUsage -> "nousage"
+  | NoKey -> "nokey" | Incomplete -> "incomplete" | NoUser -> "nouser" | NoUsage -> "nousage"
   | BadAttr IsUnlocked -> "attr:is_unlocked" | BadAttr IsPublic -> "attr:is_public"
   | Crash c -> crash_s c
   | Run (i, w) -> Printf.sprintf "run:%d:%s" (int_of_nat i) (bool_s w)
@@ -39,11 +47,17 @@ let () = run_table [
       show (perform_prefix (parse_key bits uids bind subs) (parse_op op) (parse_user user)) | _ -> failwith "args");
   "performo", (function [bits; uids; bind; subs; op; user] ->
       show (perform_old_selfsig (parse_key bits uids bind subs) (parse_op op) (parse_user user)) | _ -> failwith "args");
+  "performl", (function [bits; uids; bind; subs; op; user] ->
+      show (perform_old_lockcheck (parse_key bits uids bind subs) (parse_op op) (parse_user user)) | _ -> failwith "args");
+  "performc", (function [bits; uids; bind; subs; op; user] ->
+      show (perform_old_crash (parse_key bits uids bind subs) (parse_op op) (parse_user user)) | _ -> failwith "args");
+  "performi", (function [bits; uids; bind; subs; op; user] ->
+      show (perform_old_identity (parse_key bits uids bind subs) (parse_op op) (parse_user user)) | _ -> failwith "args");
   "flags", (function [bits; uids; bind; subs; user] ->
       String.concat "," (List.map (function FOk f -> hexnum_of_z f | FCrash c -> crash_s c)
                            (comp_flags (parse_key bits uids bind subs) (parse_user user))) | _ -> failwith "args");
-  "forms", (function [bits] -> let k = parse_key bits "_" "-" "_" in
-      String.concat " " [bool_s (is_public k); bool_s (is_protected k); bool_s (is_unlocked k)] | _ -> failwith "args");
+  "forms", (function [bits] -> let a = (parse_key bits "_" "-" "_").k_attr in
+      String.concat " " [bool_s (is_public a); bool_s (is_protected a); bool_s (is_unlocked a)] | _ -> failwith "args");
   "route", (function [own; subs; enc] ->
       (match decrypt_route (z_of_hexnum own) (List.map z_of_hexnum (split ',' subs)) (List.map z_of_hexnum (split ',' enc)) with
        | RouteOwn -> "own" | RouteCannot -> "cannot"
